@@ -131,6 +131,10 @@ def cudd_env(L):
     e['Cudd_Not'] = lambda a: ~a & F
     e['Cudd_ReadOne'] = lambda mgr: F
     e['Cudd_ReadLogicZero'] = lambda mgr: 0
+    e['Cudd_IsConstant'] = lambda a: a in (0, F)
+    e['Cudd_IsComplement'] = lambda a: not (a >> ((1 << N) - 1)) & 1
+    e['Cudd_Regular'] = lambda a: a if (a >> ((1 << N) - 1)) & 1 \
+        else ~a & F
     e['Cudd_bddAnd'] = lambda m, a, b: L.result(a & b)
     e['Cudd_bddOr'] = lambda m, a, b: L.result(a | b)
     e['Cudd_bddXor'] = lambda m, a, b: L.result(a ^ b)
@@ -152,6 +156,7 @@ def zdd_env(L):
     e['Cudd_Deref'] = L.deref
     e['Cudd_ReadZddOne'] = lambda mgr, i: F
     e['Cudd_ReadZero'] = lambda mgr: 0
+    e['Cudd_IsConstant'] = lambda a: a in (0, F)
     e['Cudd_zddDiff'] = lambda m, a, b: L.result(a & ~b)
     e['Cudd_zddIntersect'] = lambda m, a, b: L.result(a & b)
     e['Cudd_zddUnion'] = lambda m, a, b: L.result(a | b)
